@@ -247,6 +247,10 @@ def fam_failures(rec, rnd, thorough, n_types):
             rec.dec(zt, buf, "zero-size-elements")
         zs = g.d_struct([("h", g.d_int(1, 0)), ("tail", zt)])
         rec.dec(zs, b"\x07\x08\x09", "zero-size-elements")
+    # STRINGN headers with a character size that does not exist, for every count incl. zero
+    for cw in (0, 3, 5, 8, 255, 65535):
+        for n in (0, 1, 2):
+            rec.dec(g.d_stringn(), struct.pack("<HH", cw, n) + b"abcdefgh"[:n * min(cw, 4)], "stringn-bad-char-size")
     for t in types:
         for label, v in g.bad_values(t, rnd):
             rec.enc(t, v, "bad:" + label)
